@@ -468,7 +468,7 @@ def cas1(ctx, c):
                             "%s: the length byte %s may be as large as %d, which does not fit a byte/the 255-byte block limit" % (name, lenb[1], bound), where)
             # block specific content
             if btype == T.BLOCK_NAMEFILE:
-                _namefile_payload(c, name, site, payload, where)
+                _namefile_payload(c, name, site, payload, where, fn)
             elif btype == T.BLOCK_DATA:
                 _data_payload(c, name, site, conds, lenb, payload, tail, where)
             elif btype == T.BLOCK_EOF:
@@ -489,7 +489,27 @@ def cas1(ctx, c):
                     "%s writes a literal frame whose checksum/length/trailer is wrong" % name, repo.loc(fn, fn.node))
 
 
-def _namefile_payload(c, name, site, payload, where):
+def _local_branches(fn, local):
+    """the expressions a local of the writer is bound to: [(test text or None, expression text with the file parameter as $1, folded constant or None)]; None when it is not
+    bound by plain assignments of the function itself"""
+    if fn is None or not re.fullmatch(r"[A-Za-z_]\w*", local or ""):
+        return None
+    params = [p_ for p_ in fn.params if p_ != "self"]
+    out = []
+    for n in ast.walk(fn.node):
+        if isinstance(n, ast.Assign) and len(n.targets) == 1 and isinstance(n.targets[0], ast.Name) and n.targets[0].id == local:
+            alts = [(U(n.value.test), n.value.body), ("not (%s)" % U(n.value.test), n.value.orelse)] if isinstance(n.value, ast.IfExp) else [(None, n.value)]
+            for t_, e_ in alts:
+                txt = U(e_)
+                if params:
+                    txt = re.sub(r"\b%s\b" % re.escape(params[0]), "$1", txt)
+                out.append((t_, txt, try_fold(e_)))
+        elif isinstance(n, (ast.AugAssign, ast.For, ast.With)) and any(isinstance(x, ast.Name) and x.id == local and isinstance(x.ctx, ast.Store) for x in ast.walk(n)):
+            return None
+    return out or None
+
+
+def _namefile_payload(c, name, site, payload, where, fn=None):
     # 8-byte name then the seven header fields in order
     flat = []
     for it in payload:
@@ -552,7 +572,19 @@ def _namefile_payload(c, name, site, payload, where):
             c.finding(s2, "carries %s" % (f or "constant %#04x" % b[2]),
                       "%s: header byte %d must be the %s, the code writes %s" % (name, 12 + pos, w, b[1]), where)
         else:
-            c.undecided(s2, "expression-not-classified", b[1], where)
+            # the byte comes from a local: judged by what the local is bound to, branch by branch
+            br = _local_branches(fn, b[1])
+            devs = [(t_, x_, k_) for t_, x_, k_ in (br or []) if _field(x_) != w]
+            if br and not devs:
+                c.ok(s2, "%s = %s" % (b[1], br[0][1]), where)
+            elif br and all(_field(x_) is not None or isinstance(k_, int) for t_, x_, k_ in devs):
+                t_, x_, k_ = devs[0]
+                what = ("the constant %#04x" % k_) if isinstance(k_, int) else _field(x_)
+                c.finding(s2, "carries %s%s" % (what, " when %s" % t_[:50] if t_ else ""),
+                          "%s: header byte %d must be the file's %s; the code writes `%s`, which is %s%s - a file whose %s differs is read back changed"
+                          % (name, 12 + pos, w, b[1], what, " when `%s`" % t_ if t_ else "", w), where)
+            else:
+                c.undecided(s2, "expression-not-classified", b[1], where)
 
 
 def _data_payload(c, name, site, conds, lenb, payload, tail, where):
@@ -1292,7 +1324,32 @@ def cas5b(ctx, c):
                             refused = refused or (n, fields_[0], v_)
                     except _Nrf:
                         break
-        if refused:
+        # ... nor for where it loads or how long it is: any load address 0..FFFF with any length that ends at or below $10000 is a file the writer produces
+        for n in ast.walk(rflat):
+            if refused or not (isinstance(n, ast.If) and n.body and isinstance(n.body[-1], ast.Raise)):
+                continue
+            addrs_ = sorted({U(x) for x in ast.walk(n.test) if isinstance(x, ast.Attribute) and x.attr == "int" and re.search(r"load|exec|entry|start", U(x))})
+            lens_ = sorted({U(x.args[0]) for x in ast.walk(n.test) if isinstance(x, ast.Call) and U(x.func) == "len" and len(x.args) == 1 and isinstance(x.args[0], ast.Name)})
+            if not addrs_ or len(lens_) > 1:
+                continue
+            for load_, n_ in ((0xFF00, 0x100), (0xFFFF, 1), (0, 0xFFFF), (0x8000, 0x8000), (0, 1), (0x0E00, 0x2000)):
+                envr = dict(ctx.env)
+                for a_ in addrs_:
+                    envr[a_] = load_
+                for l_ in lens_:
+                    envr[l_] = [0] * n_
+                try:
+                    if _frf(n.test, envr):
+                        refused = (n, "load / entry address", load_)
+                        c.finding("read_file:refuses-field", "a file of %d bytes at %#06x is refused" % (n_, load_),
+                                  "CassetteFile.read_file raises when `%s`, which holds for %d bytes loaded at $%04X (last byte at $%04X): the writer stores such a file, so a tape the tool "
+                                  "wrote is refused, and VirtualFile.get_coco_files reads the refusal as 'not a cassette'" % (U(n.test)[:70], n_, load_, load_ + n_ - 1), repo.loc(rfm, n))
+                        break
+                except _Nrf:
+                    break
+        if refused and refused[1] == "load / entry address":
+            pass
+        elif refused:
             c.finding("read_file:refuses-field", "a header whose %s is %#04x is refused" % (refused[1], refused[2]),
                       "CassetteFile.read_file raises when `%s`, which holds for %s = %#04x: the writer stores whatever type and flags a file has, so a tape the tool wrote is refused, "
                       "and VirtualFile.get_coco_files reads the refusal as 'not a cassette' (the target is then treated, and overwritten, as a raw binary)"
